@@ -1,4 +1,5 @@
 import Crd.Props.C08
+import Crd.Props.C08Bytes
 #print axioms Crd.Props.C08.track_count
 #print axioms Crd.Props.C08.one_eot_and_last
 #print axioms Crd.Props.C08.meta_routed_to_first
@@ -9,3 +10,7 @@ import Crd.Props.C08
 #print axioms Crd.Props.C08.ticks_per_quarter
 #print axioms Crd.Props.C08.delta_times_fit
 #print axioms Crd.Props.C08.too_long_refused
+#print axioms Crd.Props.C08.prepare_keeps_texts
+#print axioms Crd.Props.C08.written_file_parses
+#print axioms Crd.Props.C08.decode_keeps_texts
+#print axioms Crd.Props.C08.write_output_parses
